@@ -10,6 +10,7 @@ mod c02;
 mod c03;
 mod c04;
 mod c05;
+mod c06;
 mod c07;
 mod c09;
 mod c10;
@@ -71,7 +72,9 @@ fn main() {
         eprintln!("usage: bvh replay|record <prop> ...");
         std::process::exit(2);
     }
-    ev::quiet_panics();
+    if std::env::var("BVH_LOUD").is_err() {
+        ev::quiet_panics();
+    }
     let seed: u64 = opt(&args, "--seed").and_then(|s| s.parse().ok()).unwrap_or(1);
     let n: usize = opt(&args, "--n").and_then(|s| s.parse().ok()).unwrap_or(100);
     match (args[1].as_str(), args[2].as_str()) {
@@ -80,6 +83,11 @@ fn main() {
             let ls = lifts(&args);
             let thorough = args.iter().any(|a| a == "--thorough");
             let cli = opt(&args, "--cli");
+            if prop == "c06" {
+                let out = c06::replay_all(&cases, cli.as_deref().expect("--cli"));
+                write_out(&args[4], &out);
+                return;
+            }
             if prop == "c19" {
                 let out = c19::replay_all(&cases, cli.as_deref().expect("--cli"));
                 write_out(&args[4], &out);
@@ -116,6 +124,7 @@ fn main() {
             let cli = opt(&args, "--cli");
             let out = match prop {
                 "c02" => c02::record(seed, n, cli.as_deref()),
+                "c06" => c06::record(seed, n, cli.as_deref().expect("--cli")),
                 "c16" => c16::record(seed, n, cli.as_deref()),
                 "c20" => c20::record(seed, n),
                 "c18" => c18::record(cli.as_deref().expect("--cli"), args.iter().any(|a| a == "--thorough")),
